@@ -9,6 +9,7 @@
 From Coq Require Import List ZArith Bool Relations.
 Import ListNotations.
 Require Import Gram.Model.Term Gram.Model.DeBruijn Gram.Model.Eval Gram.Spec.Typing Gram.Oracle.Infer Gram.Proofs.InferSound Gram.Model.ModelB Gram.Proofs.ModelBProofs.
+Require Gram.Proofs.TcSoundHF Gram.Proofs.TcCompleteHF.
 
 Theorem C05_whnf_sound : forall fuel G t u, whnf fuel G t = Some u -> clos_refl_trans term (red G) t u.
 Proof. exact whnf_sound. Qed.
@@ -50,3 +51,49 @@ Theorem C05_elaboration_identity : forall fuel s G D t r, tcB fuel s G D t = Som
 Proof. exact tcB_elab_identity. Qed.
 Check C05_elaboration_identity : forall fuel s G D t r, tcB fuel s G D t = Some r -> b_elab r = t.
 Print Assumptions C05_elaboration_identity.
+
+(* COMPLETENESS of the checker model against the verified checker, on fully annotated programs
+   (Proofs/TcCompleteHF.v). For hole-free programs whose groups are on the definition spine (group-free programs
+   included): whenever the verified checker `infer` accepts, the checker model never reports an error - for any fuel
+   on which it answers - and its type is `infer`'s with some reductions done (`hrg`; definitionally equal for
+   group-free programs). And it DOES answer, for every large enough fuel, as soon as the codomain of each applied
+   function's type has a weak-head normal form (`inferT` = `infer` + that one requirement); without it the two
+   checkers really differ: C05_completeness_refuted_without_normalisation is a hole-free well-typed program on which
+   the model diverges for every fuel (`w : type = w; ...`; parse()'s definition-order check rejects it first). *)
+Theorem C05_no_false_rejection : forall f t T,
+  hole_free t = true -> TcSoundHF.spine t = true -> infer f [] t = Some T ->
+  forall f' r, tcB f' [] [] [] t = Some r ->
+  b_errs r = [] /\ exists T', TcSoundHF.zk (b_st r) (b_ty r) T' /\ TcCompleteHF.hrg [] T T'.
+Proof. exact TcCompleteHF.tcB_no_false_rejection_spine. Qed.
+Check C05_no_false_rejection : forall f t T,
+  hole_free t = true -> TcSoundHF.spine t = true -> infer f [] t = Some T ->
+  forall f' r, tcB f' [] [] [] t = Some r ->
+  b_errs r = [] /\ exists T', TcSoundHF.zk (b_st r) (b_ty r) T' /\ TcCompleteHF.hrg [] T T'.
+Print Assumptions C05_no_false_rejection.
+
+Theorem C05_complete_on_spine_programs : forall f t T,
+  hole_free t = true -> TcSoundHF.spine t = true -> TcCompleteHF.inferT f [] t = Some T ->
+  exists f0 r, (forall f', f0 <= f' -> tcB f' [] [] [] t = Some r) /\ b_errs r = [] /\
+    exists T', TcSoundHF.zk (b_st r) (b_ty r) T' /\ TcCompleteHF.hrg [] T T'.
+Proof. exact TcCompleteHF.tcB_complete_hole_free_spine. Qed.
+Check C05_complete_on_spine_programs : forall f t T,
+  hole_free t = true -> TcSoundHF.spine t = true -> TcCompleteHF.inferT f [] t = Some T ->
+  exists f0 r, (forall f', f0 <= f' -> tcB f' [] [] [] t = Some r) /\ b_errs r = [] /\
+    exists T', TcSoundHF.zk (b_st r) (b_ty r) T' /\ TcCompleteHF.hrg [] T T'.
+Print Assumptions C05_complete_on_spine_programs.
+
+Theorem C05_complete_on_group_free_programs : forall f t T,
+  hole_free t = true -> TcSoundHF.no_let t = true -> TcCompleteHF.inferT f [] t = Some T ->
+  exists f0 r, (forall f', f0 <= f' -> tcB f' [] [] [] t = Some r) /\ b_errs r = [] /\
+    exists T', TcSoundHF.zk (b_st r) (b_ty r) T' /\ TcCompleteHF.hr [] T T' /\ conv [] T' T.
+Proof. exact TcCompleteHF.tcB_complete_hole_free_nolet. Qed.
+Check C05_complete_on_group_free_programs : forall f t T,
+  hole_free t = true -> TcSoundHF.no_let t = true -> TcCompleteHF.inferT f [] t = Some T ->
+  exists f0 r, (forall f', f0 <= f' -> tcB f' [] [] [] t = Some r) /\ b_errs r = [] /\
+    exists T', TcSoundHF.zk (b_st r) (b_ty r) T' /\ TcCompleteHF.hr [] T T' /\ conv [] T' T.
+Print Assumptions C05_complete_on_group_free_programs.
+
+Theorem C05_completeness_refuted_without_normalisation : ltac:(let T := type of TcCompleteHF.tcB_complete_hole_free_refuted in exact T).
+Proof. exact TcCompleteHF.tcB_complete_hole_free_refuted. Qed.
+Check C05_completeness_refuted_without_normalisation : _ /\ _ /\ _ /\ forall f, tcB f [] [] [] TcCompleteHF.ex_div = None.
+Print Assumptions C05_completeness_refuted_without_normalisation.
